@@ -73,6 +73,7 @@ type FnVC struct {
 	pendingSite      string
 	immut            map[*ssa.Alloc]ssa.Value
 	siteOrd          map[ssa.Instruction]int
+	curIdx           int
 	lastCalleeGhosts map[string]TV
 	pendingArgs      []TV
 	closures         map[ssa.Value]*ssa.MakeClosure
@@ -571,9 +572,11 @@ func (vc *FnVC) translate() (err error) {
 		}
 		memIn[b] = m
 		vc.cur = m
-		for _, in := range b.Instrs {
+		for idx, in := range b.Instrs {
+			vc.curIdx = idx
 			vc.instr(in)
 		}
+		vc.curIdx = len(b.Instrs)
 		vc.memOut[b] = vc.cur
 		// back edges leaving this block
 		for _, s := range b.Succs {
